@@ -117,6 +117,8 @@ impl Meta {
                             let mut inner = false;
                             go(m, &mut inner, v);
                         }
+                    } else {
+                        panic!("bpaf usage BUG: adjacent should start with a required argument");
                     }
                 }
                 Meta::Optional(m)
